@@ -79,7 +79,8 @@ class StereoMolGraph(MolGraph):
         o_colors = {a: int(c) for a,c in zip(other.atoms, o_color_array)}
         s_colors = {a: int(c) for a,c in zip(self.atoms, s_color_array)}
 
-        return any(
+        # an empty mapping (two empty graphs) is a valid isomorphism
+        return next(
                 vf2pp_all_isomorphisms(
                     self,
                     other,
@@ -87,8 +88,9 @@ class StereoMolGraph(MolGraph):
                     stereo=True,
                     stereo_change=False,
                     subgraph=False,
-                )
-            )
+                ),
+                None,
+            ) is not None
 
     def __str__(self) -> str:
         a_list = sorted(
